@@ -496,6 +496,32 @@ func syncOnce(o Op, sched Op) map[string]interface{} {
 			out["listing"] = lst
 		}
 	}
+	if Op(o["opt"].(map[string]interface{})).boolean("again") && res.sendErr == nil && res.recvErr == nil {
+		// the same (unchanged) source transferred once more into the destination the first transfer produced
+		log2 := &evLog{}
+		fs2, mfs2, _, err := buildSource(o, filepath.Join(dir, "again"), log2)
+		if dirSrc := Op(o["src"].(map[string]interface{})).str("kind") == "disk"; dirSrc {
+			// an on-disk source is still there: reuse it instead of materialising a second copy
+			fs2, mfs2, err = fs, mfs, nil
+		}
+		if err == nil {
+			if mfs2 != nil {
+				mfs2.log = log2
+			}
+			res2 := runXfer(fs2, dest, xo, log2)
+			after2, _ := snapshot(dest, true)
+			nreq := 0
+			for _, e := range log2.snapshot() {
+				if e.End == "R" && e.Kind == "send" && e.Typ == "REQ" {
+					nreq++
+				}
+			}
+			out["again"] = map[string]interface{}{
+				"send": errClass(res2.sendErr, res2.sendRet), "recv": errClass(res2.recvErr, res2.recvRet),
+				"reqs": nreq, "notifs": len(res2.notifs), "after": snapsToJSON(after2),
+			}
+		}
+	}
 	return out
 }
 
